@@ -263,6 +263,17 @@ def run_check(pid, tier, replay_case=None, quiet=False):
             f.write(p2.stdout)
         if not os.path.exists(out2):
             print(p2.stdout[-4000:])
+            cr = crash_in_tree(p2.stdout)
+            if cr is not None and replay_case is None:
+                rdir = os.path.join(VERIF, "replays", pid) if REPO == "/repo" else os.path.join(BUILD, "replays-scratch", pid)
+                os.makedirs(rdir, exist_ok=True)
+                key = "the harness process (%s) died inside the tree under test: %s at %s" % ((part["test"],) + cr)
+                rp = os.path.join(rdir, hashlib.sha1(key.encode()).hexdigest()[:12] + ".json")
+                with open(rp, "w") as f:
+                    json.dump({"property": pid, "tier": tier, "key": key, "detail": p2.stdout[-8000:], "replay": {"case": ""}}, f, indent=1)
+                print("  detail: " + key)
+                print("VIOLATION property=%s replay=%s" % (pid, rp))
+                return 1
             bb = "[build failed]" in p2.stdout or "[setup failed]" in p2.stdout
             print(("BUILD-BROKEN" if bb else "TOOL-ERROR") + ": part %s of %s produced no report" % (part["test"], pid))
             return 2
